@@ -1,15 +1,19 @@
 SPECIFICATION Spec
 CONSTANTS
   MaxT = 3
+  DevJoinLastWins = FALSE
   UseLock = FALSE
   Gs = {1, 2, 4, 5, 6}
   Ns = {1, 2, 3}
   Flexes = {1, 2}
   Kinds = {1, 2}
+  FailModes = {"none", "one", "two"}
   BadSets = {{}, {1}}
 INVARIANT PartitionExact
 INVARIANT MutualExclusion
 INVARIANT LockHeld
 INVARIANT LoadedOnce
 INVARIANT ResultScheduleIndependent
+INVARIANT FailsIffThreadFailed
+INVARIANT NeverLoadsFailing
 CHECK_DEADLOCK FALSE
